@@ -7,7 +7,7 @@ U = 'parsec/class/info.c'
 RESIZE = 'parsec_ioa_resize_and_rdlock'
 
 
-def run(ctx):
+def _run(ctx):
     ctx.explanation = ('Static clauses on info.c: (a) parsec_ioa_resize_and_rdlock returns holding the read lock of the object array on every path; the array is reallocated only under the write lock after '
                        're-checking the size; growth zero-fills exactly the new slots [known_infos, new size) (element index and byte count checked by affine normalisation); (b) set / get / test_and_set touch '
                        'info_objects[iid] only under that lock and release it on all exits; test_and_set replaces through cas_ptr(&slot, old, info) and returns info exactly on success; (c) every traversal of the '
@@ -152,3 +152,10 @@ def run(ctx):
     dup = [r for r in g.returns() if r.e is not None and r.e.cv is not None]
     rc.expect(all(g.guarded_by(r.point, lambda a, t: (not t) and a.k == 'call' and a.n == 'strcmp') for r in dup) and dup, 'register:duplicate', dup[0].loc if dup else g.where(),
               'registering an existing name must be refused', note='duplicate name refused')
+
+
+
+def run(ctx):
+    _run(ctx)
+    from rules import whowrites
+    whowrites.thorough(ctx, 'C41')
